@@ -8,11 +8,12 @@ CONSTANTS
   RemoteConfig <- MCRemoteConfig
   HealthMetric <- NHealth
   CheckTagId = TRUE
-  Fams = {"all_big", "tok_big"}
+  Fams = {"all_big"}
   Sessions <- MCSessions
   Names <- MCNamesByFam
   Edits <- MCEditsByFam
   ExtraBits <- AllBits
+  Exporting = FALSE
   MaxOps = 2
 VIEW View
 INVARIANTS AcceptOnlyEdDSA AcceptOnlySignedByNamedKey AcceptOnlyIssuedByVkuth AcceptOnlyForUser
